@@ -5,6 +5,7 @@ import (
 	"errors"
 	"fmt"
 	"io"
+	"io/fs"
 	"net"
 	"net/http"
 	"net/url"
@@ -26,36 +27,38 @@ import (
 // Some are wrapped by flamego into fast invokers, the rest are called through
 // reflection.
 const (
-	ShCtx       = iota // func(Context)                               fast (ContextInvoker)
-	ShHTTP             // func(http.ResponseWriter, *http.Request)    fast
-	ShCtxTok           // func(Context, Token)                        reflective
-	ShCtxReqTok        // func(Context, *http.Request, Token)         reflective
-	ShCtxStr           // func(Context) string
-	ShCtxBytes         // func(Context) []byte
-	ShCtxErr           // func(Context) error
-	ShCtxIntStr        // func(Context) (int, string)
-	ShCtxIntErr        // func(Context) (int, error)
-	ShCtxStrErr        // func(Context) (string, error)
-	ShTeapot           // func() (int, string)                        fast
-	ShLogger           // LoggerInvoker(func(Context, *log.Logger))   fast
-	ShRWReqTok         // func(http.ResponseWriter, *http.Request, Token)
-	ShCtxRender        // func(Context, flamego.Render)  (needs Renderer earlier in the chain)
-	ShMissing          // func(Context, Missing): failed dependency resolution
-	ShCtxSvc           // func(Context, *AppSvc)
-	ShInjector         // func(inject.Injector): reaches the Context through an interface it implements
-	ShUserFast         // a user-defined inject.FastInvoker type
-	ShCtxPtrStr        // func(Context) *string
+	ShCtx           = iota // func(Context)                               fast (ContextInvoker)
+	ShHTTP                 // func(http.ResponseWriter, *http.Request)    fast
+	ShCtxTok               // func(Context, Token)                        reflective
+	ShCtxReqTok            // func(Context, *http.Request, Token)         reflective
+	ShCtxStr               // func(Context) string
+	ShCtxBytes             // func(Context) []byte
+	ShCtxErr               // func(Context) error
+	ShCtxIntStr            // func(Context) (int, string)
+	ShCtxIntErr            // func(Context) (int, error)
+	ShCtxStrErr            // func(Context) (string, error)
+	ShTeapot               // func() (int, string)                        fast
+	ShLogger               // LoggerInvoker(func(Context, *log.Logger))   fast
+	ShRWReqTok             // func(http.ResponseWriter, *http.Request, Token)
+	ShCtxRender            // func(Context, flamego.Render)  (needs Renderer earlier in the chain)
+	ShMissing              // func(Context, Missing): failed dependency resolution
+	ShCtxSvc               // func(Context, *AppSvc)
+	ShInjector             // func(inject.Injector): reaches the Context through an interface it implements
+	ShUserFast             // a user-defined inject.FastInvoker type
+	ShCtxPtrStr            // func(Context) *string
+	ShCtxNamedStr          // func(Context) Page      (a named string type, like template.HTML)
+	ShCtxNamedBytes        // func(Context) RawDoc    (a named []byte type, like json.RawMessage)
 	shMax
 )
 
 // ShapeNames for reports.
 var ShapeNames = []string{"ctx", "http", "ctx+tok", "ctx+req+tok", "ctx->string", "ctx->bytes", "ctx->error", "ctx->(int,string)",
-	"ctx->(int,error)", "ctx->(string,error)", "teapot", "logger-invoker", "rw+req+tok", "ctx+render", "ctx+MISSING", "ctx+svc", "injector", "user-fast-invoker", "ctx->*string"}
+	"ctx->(int,error)", "ctx->(string,error)", "teapot", "logger-invoker", "rw+req+tok", "ctx+render", "ctx+MISSING", "ctx+svc", "injector", "user-fast-invoker", "ctx->*string", "ctx->named-string", "ctx->named-bytes"}
 
 // ShapeHasOut reports whether the shape returns values that flamego renders.
 func ShapeHasOut(sh int) bool {
 	switch sh {
-	case ShCtxStr, ShCtxBytes, ShCtxErr, ShCtxIntStr, ShCtxIntErr, ShCtxStrErr, ShTeapot, ShCtxPtrStr:
+	case ShCtxStr, ShCtxBytes, ShCtxErr, ShCtxIntStr, ShCtxIntErr, ShCtxStrErr, ShTeapot, ShCtxPtrStr, ShCtxNamedStr, ShCtxNamedBytes:
 		return true
 	}
 	return false
@@ -87,15 +90,36 @@ const (
 	PvNotExist
 	PvNetClosed
 	PvHandlerTimeout
-	PvFormatter  // a value implementing fmt.Formatter (its rendering carries the token)
-	PvPublic     // a value offering Public() string
-	PvLineMapped // a string panic raised from a //line-mapped position one line past the end of its file
-	PvUnicode    // a message of a few dozen multi-byte characters (more bytes than runes)
+	PvFormatter     // a value implementing fmt.Formatter (its rendering carries the token)
+	PvPublic        // a value offering Public() string
+	PvLineMapped    // a string panic raised from a //line-mapped position one line past the end of its file
+	PvUnicode       // a message of a few dozen multi-byte characters (more bytes than runes)
+	PvTypedNilStd   // a typed nil *fs.PathError: an error whose Error() and Unwrap() both dereference nil
+	PvUnwrapPanics  // an error with a harmless Error() whose Unwrap() panics (errors.Is / errors.As on it blow up)
+	PvIsPanics      // an error with a harmless Error() whose Is(target) panics
+	PvInlinedHelper // an error raised through a tiny must(err) helper the compiler inlines into the handler
 	pvMax
 )
 
 // PanicKindNames for reports.
-var PanicKindNames = []string{"string", "error", "runtime:nil-map", "runtime:index", "struct", "http.ErrAbortHandler", "wrapped-error", "int", "slice-typed-error", "map", "func", "error-with-panicking-Error()", "inject.InterfaceOf-panic", "io.EOF", "context.Canceled", "context.DeadlineExceeded", "wrapped-EPIPE", "wrapped-ECONNRESET", "fs.ErrNotExist", "net.ErrClosed", "http.ErrHandlerTimeout", "fmt.Formatter", "has-Public()", "line-mapped-past-eof", "multi-byte-message"}
+var PanicKindNames = []string{"string", "error", "runtime:nil-map", "runtime:index", "struct", "http.ErrAbortHandler", "wrapped-error", "int", "slice-typed-error", "map", "func", "error-with-panicking-Error()", "inject.InterfaceOf-panic", "io.EOF", "context.Canceled", "context.DeadlineExceeded", "wrapped-EPIPE", "wrapped-ECONNRESET", "fs.ErrNotExist", "net.ErrClosed", "http.ErrHandlerTimeout", "fmt.Formatter", "has-Public()", "line-mapped-past-eof", "multi-byte-message", "typed-nil-*fs.PathError", "error-with-panicking-Unwrap()", "error-with-panicking-Is()", "raised-in-inlined-helper"}
+
+type brokenUnwrap struct{ tok string }
+
+func (e *brokenUnwrap) Error() string { return e.tok }
+func (e *brokenUnwrap) Unwrap() error { panic("Unwrap called on a half-built error") }
+
+type brokenIs struct{ tok string }
+
+func (e *brokenIs) Error() string        { return e.tok }
+func (e *brokenIs) Is(target error) bool { panic("Is called on a half-built error") }
+
+// must is small enough to be inlined: its frame exists only as inlining information.
+func must(err error) {
+	if err != nil {
+		panic(err)
+	}
+}
 
 type fmtValue struct{ tok string }
 
@@ -160,6 +184,14 @@ func raise(kind int, tok string, c flamego.Context) {
 		panic(publicValue{tok})
 	case PvLineMapped:
 		raiseFromMappedLine(tok)
+	case PvTypedNilStd:
+		panic((*fs.PathError)(nil))
+	case PvUnwrapPanics:
+		panic(&brokenUnwrap{tok})
+	case PvIsPanics:
+		panic(&brokenIs{tok})
+	case PvInlinedHelper:
+		must(errors.New(tok))
 	case PvUnicode:
 		panic(tok + " 処理中に予期しないエラーが発生しました：データベース接続が切断されました")
 	case PvString:
@@ -257,7 +289,7 @@ func (h *SimH) run(c flamego.Context, rw http.ResponseWriter, r *http.Request, t
 	}
 	sched.Yield(SiteExit)
 	if ShapeHasOut(h.Shape) {
-		q.ev(EvRet, h.HID, ret.Kind*1000+ret.Code, "")
+		q.ev(EvRet, h.HID, ret.Kind*1000+ret.Code, "k"+itoa(ret.Kind))
 	}
 	q.ev(EvExit, h.HID, 0, "")
 	finished = true
@@ -652,6 +684,27 @@ func retErr(q *Req, pos int, k int) error {
 	return errors.New("err-" + q.Name + "-" + itoa(pos))
 }
 
+// Page and RawDoc are the named string / byte-slice types applications return (template.HTML,
+// json.RawMessage, ...).
+type (
+	Page   string
+	RawDoc []byte
+)
+
+// RetRenders: a handler of this shape returning with return kind k (0 zero values, 1 text, 2 error)
+// hands the ReturnHandler something it renders by writing.
+func RetRenders(sh, k int) bool {
+	switch sh {
+	case ShCtxIntStr, ShCtxIntErr, ShTeapot:
+		return true // the status is sent whatever follows it
+	case ShCtxErr:
+		return k == 2
+	case ShCtxStr, ShCtxBytes, ShCtxStrErr, ShCtxPtrStr, ShCtxNamedStr, ShCtxNamedBytes:
+		return k != 0
+	}
+	return false
+}
+
 // userFast is a FastInvoker type defined outside flamego.
 type userFast func(c flamego.Context)
 
@@ -735,6 +788,19 @@ func (h *SimH) handler() flamego.Handler {
 			}
 			s := retString(q, h.Pos, 1)
 			return &s
+		}
+	case ShCtxNamedStr:
+		return func(c flamego.Context) Page {
+			rt, q := h.run(c, nil, nil, "")
+			return Page(retString(q, h.Pos, rt.Kind))
+		}
+	case ShCtxNamedBytes:
+		return func(c flamego.Context) RawDoc {
+			rt, q := h.run(c, nil, nil, "")
+			if rt.Kind == 0 {
+				return nil
+			}
+			return RawDoc(retString(q, h.Pos, 1))
 		}
 	}
 	panic("unknown shape")
